@@ -31,6 +31,7 @@ class Crash(BaseException):
 def reset(state: Optional[Dict[str, Optional[str]]] = None) -> None:
     global CRASH_AT, CRASH_BYTES
     FS.clear()
+    del OPEN[:]
     _OsStub._fds.clear() if "_OsStub" in globals() else None
     POISON.clear()
     MTIME.clear()
@@ -74,27 +75,40 @@ def _ensure_parents_exist(p: str) -> None:
 
 
 class _Stat:
+    """time stamps: one tick per effect, in NANOSECONDS -- a whole run happens within the same second"""
+
     def __init__(self, p):
         self.st_mtime_ns = MTIME.get(p, 0)
-        self.st_mtime = float(self.st_mtime_ns)
+        self.st_mtime = self.st_mtime_ns / 1e9
         self.st_size = len(FS.get(p) or "")
 
 
+OPEN: List["_Handle"] = []     # open handles: a rename retargets them (a descriptor follows the file, not the name)
+
+
 class _Handle:
-    def __init__(self, path: str, mode: str):
+    """Text handle.  Writes are BUFFERED (as Python's file objects do): they reach the file at flush() / close(); a process
+    death before that loses them.  os-level descriptors (_OsStub.open) are unbuffered."""
+
+    def __init__(self, path: str, mode: str, buffered: bool = True):
         self.path = path
         self.mode = mode
         self.pos = 0
         self.closed = False
         self.name = path
+        self.buffered = buffered
+        self.buf: List[str] = []
         if "a" in mode:
             self.pos = len(FS.get(path) or "")
+        OPEN.append(self)
 
     # context manager
     def __enter__(self):
         return self
 
-    def __exit__(self, *a):
+    def __exit__(self, et, ev, tb):
+        if et is not None and issubclass(et, Crash):
+            return False          # the process died: nothing is flushed
         self.close()
         return False
 
@@ -103,6 +117,7 @@ class _Handle:
             raise OSError("not readable")
         if self.path in POISON:
             raise POISON[self.path]
+        self.flush()
         data = FS.get(self.path) or ""
         out = data[self.pos:] if n is None or n < 0 else data[self.pos:self.pos + n]
         self.pos += len(out)
@@ -112,6 +127,12 @@ class _Handle:
         if not any(m in self.mode for m in ("w", "a", "+")):
             raise OSError("not writable")
         s = str(s)
+        if self.buffered:
+            self.buf.append(s)
+            return len(s)
+        return self._write_through(s)
+
+    def _write_through(self, s: str) -> int:
         n = len(LOG)
         LOG.append(f"write {self.path} [{len(s)} chars at {self.pos}]")
         cur = FS.get(self.path) or ""
@@ -126,6 +147,7 @@ class _Handle:
         return len(s)
 
     def seek(self, pos: int, whence: int = 0) -> int:
+        self.flush()
         if whence == 0:
             self.pos = pos
         elif whence == 1:
@@ -138,6 +160,7 @@ class _Handle:
         return self.pos
 
     def truncate(self, size: Optional[int] = None) -> int:
+        self.flush()
         size = self.pos if size is None else size
         _effect(f"truncate {self.path} to {size}")
         FS[self.path] = (FS.get(self.path) or "")[:size]
@@ -145,13 +168,22 @@ class _Handle:
         return size
 
     def flush(self) -> None:
-        pass
+        if self.buf:
+            text = "".join(self.buf)
+            del self.buf[:]
+            self._write_through(text)
 
     def fileno(self) -> int:
         return 3
 
     def close(self) -> None:
-        self.closed = True
+        if not self.closed:
+            try:
+                self.flush()
+            finally:
+                self.closed = True
+                if self in OPEN:
+                    OPEN.remove(self)
 
     def __iter__(self):
         return iter((FS.get(self.path) or "").splitlines(True))
@@ -316,6 +348,9 @@ class MemPath:
             raise FileNotFoundError(self._s)
         _effect(f"replace {self._s} -> {t}")
         FS[t] = FS.pop(self._s)
+        for h in OPEN:
+            if h.path == self._s:
+                h.path = t
         _touch(t)
         return MemPath(t)
 
@@ -414,7 +449,7 @@ class _OsStub:
         fd = 3 + len(_OsStub._fds)
         while fd in _OsStub._fds:
             fd += 1
-        h = _Handle(p, "r+" if flags & 3 else "r")
+        h = _Handle(p, "r+" if flags & 3 else "r", buffered=False)
         if flags & _OsStub.O_APPEND:
             h.pos = len(FS[p] or "")
         _OsStub._fds[fd] = h
@@ -437,7 +472,9 @@ class _OsStub:
 
     @staticmethod
     def close(fd):
-        _OsStub._fds.pop(fd, None)
+        h = _OsStub._fds.pop(fd, None)
+        if h is not None:
+            h.close()
 
     @staticmethod
     def makedirs(p, mode=0o777, exist_ok=False):
